@@ -3,6 +3,7 @@ import RawPanelVerif.Lemmas.MonoTextXform
 import RawPanelVerif.Lemmas.MonoFont
 import RawPanelVerif.Lemmas.MonoTextBox
 import RawPanelVerif.Lemmas.MonoTextDev
+import RawPanelVerif.Lemmas.MonoTextDevLines
 import RawPanelVerif.Lemmas.MonoTextPerLine
 import RawPanelVerif.Spec.TextSpec
 import RawPanelVerif.Driver.Text
@@ -49,12 +50,21 @@ malformed bytes are `0xFD`); the theorems below are about the resulting byte(run
   and its sizes are `≥ 1` the final case obeys `Spec.Text.check`; `runCalls_bg`: no history separates background and text
   colour.  (The model has no state besides canvas × `TextSt`: a cached line height or a memoised glyph width in the code
   shows as model ≠ implementation and, where it breaks a clause, as a Spec violation of the run.)
-* `spec_check_spacing` — the recorded deviation decided by the Spec: for every text state with **any** extra spacing, in the
-  class of the finding (`knownSpacingClass`) `Spec.Text.check` (with the reported glyph widths attached) answers `none` or
-  `scale.spacing` on the model's renderings, never `scale`: the glyph cells at the advance `h·w + s` are the size-1 cells
-  enlarged exactly, nothing lit between them (`Lemmas/MonoTextDev.textR0_dev`; `check_dev_of_facts` /
-  `scaleDevOk_of_facts` are the Spec-side half).  Non-vacuity: the recorded example evaluates to `scale.spacing`, the same
-  case with one extra pixel to `scale`.
+* `spec_check_spacing_lines` — the recorded deviation decided by the Spec, **any string (any number of line feeds), any canvas
+  width**: for every text state with **any** extra spacing (wrapping off, background = text colour), `1 ≤ h`, `1 ≤ v < 2^24`,
+  any cursor / offset, in the class of the finding (`knownSpacingClass`: spacing `> 0`, `h > 1`, two glyphs on some line)
+  `Spec.Text.check` — with the case record the driver builds: one segment width and one list of reported glyph widths per
+  line (`withCwsL (linesCase …) ((lines s).map (glyphWs base))`) — answers `none` or `scale.spacing` on the model's
+  renderings, never `scale`, `box`, `box1` or `translate`: in every line the glyph cells at the advance `h·w + s` are the
+  size-1 cells enlarged exactly, nothing lit between or after them (`Lemmas/MonoTextDev.textR0_dev`, per line with its own
+  row origin: `Lemmas/MonoTextDevLines.line_dev`; `devSource_lt_adv`: every cell lies inside its line box, so the padding
+  bits `W ≤ X` are in no cell).  Spec-side half, any renderer, any `Case`: `check_dev_lines_of_facts` / `scaleDevOk_of_ink`;
+  model side per line: `translate_lines_fact`, `dev_lines_fact`.  Box clauses always, the others under the Spec's own gate
+  `unclipped`.  No sub-case turned out false.  Corollaries: `spec_check_spacing` (the older one-line statement; its
+  hypothesis `W % 8 = 0` is no longer used), `sess_final_spacing_lines` (any call history).  The older one-line Spec-side
+  lemmas `check_dev_of_facts` / `scaleDevOk_of_facts` are kept.  Non-vacuity: the recorded example evaluates to
+  `scale.spacing`, the same case with one extra pixel to `scale`; "ab⏎⏎cd" at size 2×1 on a 29-pixel-wide canvas (three
+  lines, 3 padding bits per row) to `scale.spacing`.
 * `spec_check_lines_state` — **any string (any number of line feeds), any canvas width** (no `10 ∉ s`, no `W % 8 = 0`): for
   every text state with spacing 0 (wrapping off, background = text colour), `1 ≤ h`, `1 ≤ v < 2^24`, any cursor / offset,
   `Spec.Text.check` answers `none` on the model's three renderings with the case record the driver builds (`linesCase`: row
@@ -68,9 +78,9 @@ malformed bytes are `0xFD`); the theorems below are about the resulting byte(run
   `check_lines_of_facts` (`boxOk_of_ink`, `translateOk_of_ink`, `scaleOk_of_ink`: Spec side, any renderer, any `Case`).
   Corollaries: `spec_check_holds_state_anyW` (one line, any width), `spec_check_lines` (setter order of `text.case`),
   `sess_final_lines` (any call history).  No sub-case turned out false: wrapping is off in every case the Spec judges.
-  NOT YET PROVED at Spec level: `spec_check_spacing` (extra spacing > 0: `none ∨ scale.spacing`) for strings with line feeds
-  and for canvas widths not a multiple of 8 (the per-line `scaleDevOk` clause is evaluated on every run; model level:
-  `Lemmas/MonoTextDev.textR0_dev` is per line already).
+  NOT YET PROVED at Spec level: extra spacing `> 0` *outside* the class of the finding (`h = 1`, or at most one glyph on
+  every line), where `Spec.Text.check` should answer `none` (model level: `scale_general` with `h = 1`,
+  `scale_single_glyph`; the clause is evaluated on every run).
 -/
 namespace RawPanelVerif.C20
 open RawPanelVerif RawPanelVerif.Mono RawPanelVerif.Gen
@@ -930,157 +940,6 @@ theorem spec_check_holds_state (W H : Nat) (hW8 : W % 8 = 0) (base : TextSt) (hs
     rw [gA] at r1; rw [gC] at r2
     rw [r1, r2]
     exact key
-
-/-- **In the recorded class the model is never a plain `scale` violation.**  For every text state (any extra spacing), string
-without line feed, sizes `1 ≤ h`, `1 ≤ v < 2^24`, cursor, offset and blank canvas of width a multiple of 8: with the glyph
-widths the model reports attached to the case, `Spec.Text.check` answers `none` or — the documented deviation, excused —
-`scale.spacing` on the model's three renderings, whenever the case lies in the class of the finding (`knownSpacingClass`:
-spacing `> 0`, `h > 1`, at least two glyphs).  So on that class `box`, `box1`, `translate` and `scale` are all decided by the
-Spec against the code's documented rule: the glyph cells at the advance `h·w + s` are the size-1 cells enlarged exactly
-`h × v` and nothing is lit between them (`Lemmas/MonoTextDev.textR0_dev`). -/
-theorem spec_check_spacing (W H : Nat) (hW8 : W % 8 = 0) (base : TextSt)
-    (hwr : base.wrap = false) (hbg : base.tbg = base.tcol) (h v cx cy dx dy : Int) (s : List Nat)
-    (hs : 10 ∉ s) (hh : 1 ≤ h) (hv : 1 ≤ v) (hv' : v < 16777216) (glyphs : Nat)
-    (hk : Spec.Text.knownSpacingClass (withCws
-      (oneLineCase W H cx cy dx dy h v (lineHeight (atSize base h v cx cy)) (lineHeight (atSize base 1 1 cx cy))
-        (strWidth (atSize base h v cx cy) s) (strWidth (atSize base 1 1 cx cy) s) base.spacing glyphs) (glyphWs base s)) = true) :
-    Spec.Text.check (withCws
-      (oneLineCase W H cx cy dx dy h v (lineHeight (atSize base h v cx cy)) (lineHeight (atSize base 1 1 cx cy))
-        (strWidth (atSize base h v cx cy) s) (strWidth (atSize base 1 1 cx cy) s) base.spacing glyphs) (glyphWs base s))
-      (bytesU8 (renderText (newCanvas W H, atSize base h v cx cy) s).1)
-      (bytesU8 (renderText (newCanvas W H,
-        { atSize base h v cx cy with cx := (atSize base h v cx cy).cx + dx, cy := (atSize base h v cx cy).cy + dy }) s).1)
-      (bytesU8 (renderText (newCanvas W H, atSize base 1 1 cx cy) s).1) = none ∨
-    Spec.Text.check (withCws
-      (oneLineCase W H cx cy dx dy h v (lineHeight (atSize base h v cx cy)) (lineHeight (atSize base 1 1 cx cy))
-        (strWidth (atSize base h v cx cy) s) (strWidth (atSize base 1 1 cx cy) s) base.spacing glyphs) (glyphWs base s))
-      (bytesU8 (renderText (newCanvas W H, atSize base h v cx cy) s).1)
-      (bytesU8 (renderText (newCanvas W H,
-        { atSize base h v cx cy with cx := (atSize base h v cx cy).cx + dx, cy := (atSize base h v cx cy).cy + dy }) s).1)
-      (bytesU8 (renderText (newCanvas W H, atSize base 1 1 cx cy) s).1) = some "scale.spacing" := by
-  have hfp : ∀ (a b c d : Int), (atSize base a b c d).fp = base.fp := fun _ _ _ _ => rfl
-  obtain ⟨hbw, hbh⟩ := fp_pos base.font
-  have hbh8 := (font_tables_sized.2.2.2 base.font).2.2.1
-  -- line heights
-  have elh : (lineHeight (atSize base h v cx cy) : Int) = (base.fp.bbH : Int) * v :=
-    lineHeight_eq (atSize base h v cx cy) (by show 0 ≤ v; omega) (by show v < 16777216; exact hv') (by unfold TextSt.fp atSize; simp only []; omega)
-  have elh1 : (lineHeight (atSize base 1 1 cx cy) : Int) = (base.fp.bbH : Int) * 1 :=
-    lineHeight_eq (atSize base 1 1 cx cy) (by show (0 : Int) ≤ 1; omega) (by show (1 : Int) < 16777216; omega) (by unfold TextSt.fp atSize; simp only []; omega)
-  have hbh1 : (1 : Int) ≤ (base.fp.bbH : Int) := by unfold TextSt.fp; omega
-  have hlpos : (0 : Int) < (base.fp.bbH : Int) * v := Int.mul_pos (by omega) (by omega)
-  -- widths
-  have esw := strWidth_eq (atSize base h v cx cy) s
-  have esw1 := strWidth_eq (atSize base 1 1 cx cy) s
-  have etsH : (atSize base h v cx cy).tsH = h := rfl
-  have etsH1 : (atSize base 1 1 cx cy).tsH = 1 := rfl
-  refine check_dev_of_facts W H hW8 cx cy dx dy h v _ _ _ _ base.spacing glyphs (glyphWs base s) _ _ _ (by rw [elh]; exact hlpos) (by rw [elh1]; omega)
-    ?_ ?_ ?_ ?_ ?_ hk
-  · intro X Y hb
-    have := bitAt_in_box W H (atSize base h v cx cy) s hs hwr (by show 0 ≤ h; omega) X Y hb
-    rw [elh]
-    exact this
-  · intro X Y hb
-    have := bitAt_in_box W H { atSize base h v cx cy with cx := (atSize base h v cx cy).cx + dx, cy := (atSize base h v cx cy).cy + dy }
-      s hs hwr (by show 0 ≤ h; omega) X Y hb
-    rw [elh]
-    have e1 : strWidth { atSize base h v cx cy with cx := (atSize base h v cx cy).cx + dx, cy := (atSize base h v cx cy).cy + dy } s =
-        strWidth (atSize base h v cx cy) s := by
-      rw [strWidth_eq, strWidth_eq, advSum_cxy]
-    rw [e1] at this
-    exact this
-  · intro X Y hb
-    have := bitAt_in_box W H (atSize base 1 1 cx cy) s hs hwr (by show (0 : Int) ≤ 1; omega) X Y hb
-    rw [elh1]
-    exact this
-  · -- translation
-    intro u1 u2 u3 u4 u5 u6 u7 u8 X Y x0 x1 y0 y1 x2 x3 y2 y3
-    rw [esw, etsH] at u4 u8
-    rw [elh] at u3 u7
-    obtain ⟨Xn, rfl⟩ := Int.eq_ofNat_of_zero_le x0
-    obtain ⟨Yn, rfl⟩ := Int.eq_ofNat_of_zero_le y0
-    obtain ⟨Xn', hXn'⟩ := Int.eq_ofNat_of_zero_le x2
-    obtain ⟨Yn', hYn'⟩ := Int.eq_ofNat_of_zero_le y2
-    rw [hXn', hYn']
-    have hneA : NoEarly (geo0 W H) (atSize base h v cx cy) s :=
-      noEarly_of_fits W H s _ (by show 1 ≤ h; exact hh) (by show 1 ≤ v; exact hv) (by show 0 ≤ cx; exact u1) (by show 0 ≤ cy; exact u2)
-        (by show cy ≤ H; omega) (by show cx + advSum (atSize base h v cx cy) s ≤ W; omega)
-    have hneB : NoEarly (geo0 W H) { atSize base h v cx cy with cx := (atSize base h v cx cy).cx + dx, cy := (atSize base h v cx cy).cy + dy } s :=
-      noEarly_of_fits W H s _ (by show 1 ≤ h; exact hh) (by show 1 ≤ v; exact hv) (by show 0 ≤ cx + dx; exact u5) (by show 0 ≤ cy + dy; exact u6)
-        (by show cy + dy ≤ H; omega) (by rw [advSum_cxy]; show cx + dx + advSum (atSize base h v cx cy) s ≤ W; omega)
-    have key := translation W H (atSize base h v cx cy) s hs hwr hbg dx dy hneA hneB Xn Yn Xn' Yn' (by omega) (by omega) (by omega) (by omega)
-      (by omega) (by omega)
-    have gA : (renderText (newCanvas W H, atSize base h v cx cy) s).1.geo.wib = (W + 7) / 8 := by
-      rw [(renderText_box s hs (newCanvas W H) (newCanvas_wf' W H) (atSize base h v cx cy) hwr (by show 0 ≤ h; omega)).geo]; rfl
-    have gB : (renderText (newCanvas W H, { atSize base h v cx cy with cx := (atSize base h v cx cy).cx + dx, cy := (atSize base h v cx cy).cy + dy }) s).1.geo.wib = (W + 7) / 8 := by
-      rw [(renderText_box s hs (newCanvas W H) (newCanvas_wf' W H)
-        { atSize base h v cx cy with cx := (atSize base h v cx cy).cx + dx, cy := (atSize base h v cx cy).cy + dy } hwr (by show 0 ≤ h; omega)).geo]; rfl
-    have r1 := bitAt_getPx (renderText (newCanvas W H, atSize base h v cx cy) s).1 Xn Yn (by rw [gA]; omega)
-    have r2 := bitAt_getPx (renderText (newCanvas W H, { atSize base h v cx cy with cx := (atSize base h v cx cy).cx + dx, cy := (atSize base h v cx cy).cy + dy }) s).1
-      Xn' Yn' (by rw [gB]; omega)
-    rw [gA] at r1; rw [gB] at r2
-    rw [r1, r2]
-    exact key
-  · -- the documented deviation
-    intro u1 u2 u3 u4 u9 u10 u11 u12 X Y J q hXW hYH q0 q1 j0 eY hYband
-    rw [esw, etsH] at u4
-    rw [esw1, etsH1] at u10
-    rw [elh] at u3 hYband
-    rw [elh1] at u9
-    have hneh : NoEarly (geo0 W H) (atSize base h v cx cy) s :=
-      noEarly_of_fits W H s _ (by show 1 ≤ h; exact hh) (by show 1 ≤ v; exact hv) (by show 0 ≤ cx; exact u1) (by show 0 ≤ cy; exact u2)
-        (by show cy ≤ H; omega) (by show cx + advSum (atSize base h v cx cy) s ≤ W; omega)
-    have hne1 : NoEarly (geo0 W H) (atSize base 1 1 cx cy) s :=
-      noEarly_of_fits W H s _ (by show (1 : Int) ≤ 1; omega) (by show (1 : Int) ≤ 1; omega) (by show 0 ≤ cx; exact u1) (by show 0 ≤ cy; exact u2)
-        (by show cy ≤ H; omega) (by show cx + advSum (atSize base 1 1 cx cy) s ≤ W; omega)
-    -- the glyph row lies in the cell
-    have hJ : J < (base.fp.bbH : Int) := by
-      have hvJ : v * J < v * (base.fp.bbH : Int) := by
-        have : (base.fp.bbH : Int) * v = v * (base.fp.bbH : Int) := Int.mul_comm _ _
-        omega
-      exact Int.lt_of_mul_lt_mul_left hvJ (by omega)
-    obtain ⟨Y1, hY1⟩ := Int.eq_ofNat_of_zero_le (a := cy + J) (by omega)
-    have hY1H : Y1 < H := by omega
-    have gA : (renderText (newCanvas W H, atSize base h v cx cy) s).1.geo.wib = (W + 7) / 8 := by
-      rw [(renderText_box s hs (newCanvas W H) (newCanvas_wf' W H) (atSize base h v cx cy) hwr (by show 0 ≤ h; omega)).geo]; rfl
-    have gC : (renderText (newCanvas W H, atSize base 1 1 cx cy) s).1.geo.wib = (W + 7) / 8 := by
-      rw [(renderText_box s hs (newCanvas W H) (newCanvas_wf' W H) (atSize base 1 1 cx cy) hwr (by show (0 : Int) ≤ 1; omega)).geo]; rfl
-    have r1 := bitAt_getPx (renderText (newCanvas W H, atSize base h v cx cy) s).1 X Y (by rw [gA]; omega)
-    rw [gA] at r1
-    rw [r1]
-    have a := renderText_blank W H (atSize base h v cx cy) s hs hwr hbg hneh X Y hXW hYH
-    have dev := textR0_dev W H s base h v cy (by omega) (by omega) cx cx u1 (by omega) J q X Y Y1 hXW hYH hY1H q0 q1 eY hY1.symm
-    have tc : (atSize base h v cx cy).tcol = (atSize base 1 1 cx cy).tcol := rfl
-    cases hd : Spec.Text.devSource h (↑base.spacing) (glyphWs base s) cx cx ↑X with
-    | none =>
-      rw [hd] at dev
-      simp only [devR] at dev
-      simp only [devBit]
-      exact a.2 (fun hr => dev.1 hr)
-    | some xc =>
-      rw [hd] at dev
-      simp only [devR] at dev
-      simp only [devBit]
-      have hxc0 : cx ≤ xc := devSource_ge h base.spacing (by omega) (by omega) (glyphWs base s)
-        (by intro w hw; unfold glyphWs at hw; simp only [List.mem_map] at hw; obtain ⟨c, _, rfl⟩ := hw; omega) _ _ _ _ hd
-      have hxcn : ((xc.toNat : Nat) : Int) = xc := Int.toNat_of_nonneg (by omega)
-      rw [← hxcn, hY1]
-      by_cases hxW : xc.toNat < W
-      · have r2 := bitAt_getPx (renderText (newCanvas W H, atSize base 1 1 cx cy) s).1 xc.toNat Y1 (by rw [gC]; omega)
-        rw [gC] at r2
-        rw [r2]
-        have b := renderText_blank W H (atSize base 1 1 cx cy) s hs hwr hbg hne1 xc.toNat Y1 hxW hY1H
-        by_cases hr : textR0 (geo0 W H) (atSize base 1 1 cx cy) s xc.toNat Y1
-        · rw [b.1 hr, a.1 (dev.2 hr), tc]
-        · rw [b.2 hr, a.2 (fun h => hr (dev.1 h))]
-      · -- beyond the canvas both sides are blank
-        have hC : Spec.Text.bitAt ((W + 7) / 8) (bytesU8 (renderText (newCanvas W H, atSize base 1 1 cx cy) s).1) ((xc.toNat : Nat) : Int) ((Y1 : Nat) : Int) = false := by
-          cases hb : Spec.Text.bitAt ((W + 7) / 8) (bytesU8 (renderText (newCanvas W H, atSize base 1 1 cx cy) s).1) ((xc.toNat : Nat) : Int) ((Y1 : Nat) : Int) with
-          | false => rfl
-          | true => have := bitAt_inside hb; omega
-        rw [hC]
-        refine a.2 (fun hr => ?_)
-        have := textR0_clip W H s (atSize base 1 1 cx cy) xc.toNat Y1 (dev.1 hr)
-        omega
 
 /-- non-vacuity of `spec_check_spacing`, and the recorded example: "ab" in font 0 with extra spacing 1 at size 2×2 on a 32×16
 canvas lies in the class, is unclipped, and the Spec's verdict on the model's renderings is the excused `scale.spacing`
@@ -2022,5 +1881,444 @@ example : Spec.Text.unclipped
       ((lines [65, 10, 90, 122]).map (strWidth (caseState 0 true 0 2 2 2 1)))
       ((lines [65, 10, 90, 122]).map (strWidth (caseState 0 true 0 1 1 2 1))) 0 2) = false := by
   decide +kernel
+
+/-! ## The documented deviation `scale.spacing` for strings with line feeds, canvases of any width -/
+
+/-- a case with the reported glyph widths of every line attached -/
+def withCwsL (k : Spec.Text.Case) (cws : List (List Int)) : Spec.Text.Case := { k with cws := cws }
+
+/-- `withCws` is the one-line instance -/
+example (k : Spec.Text.Case) (ws : List Int) : withCws k ws = withCwsL k [ws] := rfl
+
+/-- the widths the driver attaches (`Driver/Text.glyphWidths`) are `glyphWs` line by line -/
+example (t : TextSt) (segs : List (List Nat)) : Driver.Text.glyphWidths t segs = segs.map (glyphWs t) := rfl
+
+/-- lit bits of a rendering whose line boxes lie on the canvas have columns `< W` (none in the row padding) -/
+theorem ink_lt_W (k : Spec.Text.Case) (wib : Nat) (A : Array UInt8) (cx cy h lh : Int) (segw : List Int)
+    (fa : InkInBoxes wib A cx cy h lh segw) (ua : Spec.Text.boxesFit k cx cy h lh segw = true)
+    (X Y : Int) (hb : Spec.Text.bitAt wib A X Y = true) : X < k.W := by
+  obtain ⟨_, afit⟩ := boxesFit_elim k _ _ _ _ _ ua
+  obtain ⟨n, hn, _, d2, _, _⟩ := fa X Y hb
+  have := (afit n hn).2
+  omega
+
+/-- **Spec side of the deviation clause, per line, any `Case`, any renderer**: ink of `A` in its line boxes, the line boxes
+on the canvas, every glyph cell `devSource` knows inside its line box, and — for the stored bits `X < W` of the band of line
+`n` — `A` showing what `devSource` points to in `C` (blank outside the cells) give `scaleDevOk`. -/
+theorem scaleDevOk_of_ink (k : Spec.Text.Case) (A C : Array UInt8)
+    (fa : InkInBoxes k.wib A k.cx k.cy k.h k.lh k.segw)
+    (ua : Spec.Text.boxesFit k k.cx k.cy k.h k.lh k.segw = true)
+    (hv : 1 ≤ k.v) (hlv : k.lh = k.v * k.lh1)
+    (hcell : ∀ (n : Nat) (X xc : Int), n < k.segw.length →
+      Spec.Text.devSource k.h k.spacing (k.cws.getD n []) (Spec.Text.lineX k.cx n) (Spec.Text.lineX k.cx n) X = some xc →
+      X < Spec.Text.lineX k.cx n + k.segw.getD n 0 + k.h)
+    (fd : ∀ (n : Nat) (X Y : Nat) (J q : Int), n < k.segw.length → (X : Int) < k.W → (Y : Int) < k.H →
+      0 ≤ q → q < k.v → 0 ≤ J → J < k.lh1 → (Y : Int) = k.cy + n * k.lh + k.v * J + q →
+      Spec.Text.bitAt k.wib A X Y = devBit k.wib C (k.cy + n * k.lh1 + J)
+        (Spec.Text.devSource k.h k.spacing (k.cws.getD n []) (Spec.Text.lineX k.cx n) (Spec.Text.lineX k.cx n) X)) :
+    Spec.Text.scaleDevOk k A C = true := by
+  obtain ⟨⟨a1, a2, hl, a4⟩, afit⟩ := boxesFit_elim k _ _ _ _ _ ua
+  unfold Spec.Text.scaleDevOk
+  rw [List.all_eq_true]
+  intro p hp
+  obtain ⟨X, Y, rfl, hX, hY⟩ := mem_textPixels _ p hp
+  simp only []
+  cases hli : Spec.Text.lineIdx k.cy k.lh k.segw.length (Y : Int) with
+  | none =>
+    simp only []
+    rw [bitAt_false_of (A := A)]
+    · rfl
+    · intro hb
+      obtain ⟨n, hn, _, _, c3, c4⟩ := fa _ _ hb
+      rw [lineIdx_band k.cy k.lh k.segw.length (Y : Int) n hl hn c3 c4] at hli; cases hli
+  | some i =>
+    obtain ⟨_, hi, c1, c2⟩ := lineIdx_some hli
+    simp only []
+    have hv0 : 0 < k.v := by omega
+    have e2 := Int.emod_add_mul_ediv ((Y : Int) - (k.cy + i * k.lh)) k.v
+    have m3 := Int.emod_nonneg ((Y : Int) - (k.cy + i * k.lh)) (by omega : k.v ≠ 0)
+    have m4 := Int.emod_lt_of_pos ((Y : Int) - (k.cy + i * k.lh)) hv0
+    have d2 : 0 ≤ ((Y : Int) - (k.cy + i * k.lh)) / k.v := Int.ediv_nonneg (by omega) (by omega)
+    have d3 : ((Y : Int) - (k.cy + i * k.lh)) / k.v < k.lh1 :=
+      Int.ediv_lt_of_lt_mul hv0 (by rw [show k.lh1 * k.v = k.lh from by rw [hlv, Int.mul_comm]]; omega)
+    by_cases hXW : (X : Int) < k.W
+    · have key := fd i X Y (((Y : Int) - (k.cy + i * k.lh)) / k.v) (((Y : Int) - (k.cy + i * k.lh)) % k.v)
+        hi hXW (by omega) m3 m4 d2 d3 (by omega)
+      rw [key]
+      split
+      · rename_i hd; rw [hd]; rfl
+      · rename_i xc hd; rw [hd]; simp [devBit]
+    · have hA : Spec.Text.bitAt k.wib A (X : Int) (Y : Int) = false :=
+        bitAt_false_of (fun hb => hXW (ink_lt_W k k.wib A _ _ _ _ _ fa ua _ _ hb))
+      rw [hA]
+      split
+      · rfl
+      · rename_i xc hd
+        exfalso
+        have h1 := hcell i X xc hi hd
+        have h2 := (afit i hi).2
+        omega
+
+/-- **From pixel facts to the executable Spec, any extra spacing, any number of lines, any canvas width**: if the three
+observed renderings have their ink in their line boxes and — when the Spec's `unclipped` test holds — `B` is `A` translated
+line by line and every line of `A` is what the documented advance rule gives (every glyph cell the size-1 cell enlarged,
+nothing between the cells), then in the recorded class (`knownSpacingClass`) `Spec.Text.check` answers `none` or
+`scale.spacing`, never `scale` (nor `box`, `box1`, `translate`). -/
+theorem check_dev_lines_of_facts (k : Spec.Text.Case) (A B C : Array UInt8) (hW : k.W ≤ k.wib * 8)
+    (hl : 0 < k.lh) (hl1 : 0 < k.lh1) (hlv : k.lh = k.v * k.lh1)
+    (fa : InkInBoxes k.wib A k.cx k.cy k.h k.lh k.segw)
+    (fb : InkInBoxes k.wib B (k.cx + k.dx) (k.cy + k.dy) k.h k.lh k.segw)
+    (fc : InkInBoxes k.wib C k.cx k.cy 1 k.lh1 k.segw1)
+    (ft : Spec.Text.unclipped k = true → ∀ (n : Nat) (X Y : Int), n < k.segw.length → 0 ≤ X → X < k.W → 0 ≤ Y → Y < k.H →
+      k.cy + n * k.lh ≤ Y → Y < k.cy + n * k.lh + k.lh →
+      0 ≤ X + Spec.Text.lineDx k.dx n → X + Spec.Text.lineDx k.dx n < k.W → 0 ≤ Y + k.dy → Y + k.dy < k.H →
+      Spec.Text.bitAt k.wib B (X + Spec.Text.lineDx k.dx n) (Y + k.dy) = Spec.Text.bitAt k.wib A X Y)
+    (hcell : ∀ (n : Nat) (X xc : Int), n < k.segw.length →
+      Spec.Text.devSource k.h k.spacing (k.cws.getD n []) (Spec.Text.lineX k.cx n) (Spec.Text.lineX k.cx n) X = some xc →
+      X < Spec.Text.lineX k.cx n + k.segw.getD n 0 + k.h)
+    (fd : Spec.Text.unclipped k = true → ∀ (n : Nat) (X Y : Nat) (J q : Int), n < k.segw.length → (X : Int) < k.W → (Y : Int) < k.H →
+      0 ≤ q → q < k.v → 0 ≤ J → J < k.lh1 → (Y : Int) = k.cy + n * k.lh + k.v * J + q →
+      Spec.Text.bitAt k.wib A X Y = devBit k.wib C (k.cy + n * k.lh1 + J)
+        (Spec.Text.devSource k.h k.spacing (k.cws.getD n []) (Spec.Text.lineX k.cx n) (Spec.Text.lineX k.cx n) X))
+    (hk : Spec.Text.knownSpacingClass k = true) :
+    Spec.Text.check k A B C = none ∨ Spec.Text.check k A B C = some "scale.spacing" := by
+  have hbox := boxOk_of_ink k A hl fa
+  have hbox1 := boxOk1_of_ink k C hl1 fc
+  unfold Spec.Text.check
+  rw [hbox, hbox1, hk]
+  simp only [Bool.not_true, Bool.false_eq_true, if_false]
+  cases hu : Spec.Text.unclipped k with
+  | false => simp
+  | true =>
+    simp only [Bool.not_true, Bool.false_eq_true, if_false]
+    obtain ⟨ua, ub, _, u11, u12⟩ := unclipped_elim_lines k hu
+    have htr := translateOk_of_ink k A B hW fa fb ua ub (ft hu)
+    have hdev := scaleDevOk_of_ink k A C fa ua u12 hlv hcell (fd hu)
+    rw [htr, hdev]
+    simp only [Bool.not_true, Bool.false_eq_true, if_false, Bool.and_self, if_true]
+    cases Spec.Text.scaleOk k A C with
+    | true => left; simp
+    | false => right; simp
+
+/-- model side of the translation clause, per line, any extra spacing: `B` is `A` moved (line `n` by `(lineDx dx n, dy)`)
+when the line boxes of both lie on the canvas -/
+theorem translate_lines_fact (W H : Nat) (base : TextSt) (hwr : base.wrap = false) (hbg : base.tbg = base.tcol)
+    (h v cx cy dx dy : Int) (s : List Nat) (hh : 1 ≤ h) (hv : 1 ≤ v)
+    (lh : Int) (elh : lh = (base.fp.bbH : Int) * v) (k : Spec.Text.Case) (hkW : k.W = W) (hkH : k.H = H)
+    (ua : Spec.Text.boxesFit k cx cy h lh ((lines s).map (strWidth (atSize base h v cx cy))) = true)
+    (ub : Spec.Text.boxesFit k (cx + dx) (cy + dy) h lh ((lines s).map (strWidth (atSize base h v cx cy))) = true)
+    (n : Nat) (X Y : Int) (hn : n < (lines s).length) (x0 : 0 ≤ X) (x1 : X < W) (y0 : 0 ≤ Y) (y1 : Y < H)
+    (c1 : cy + n * lh ≤ Y) (c2 : Y < cy + n * lh + lh)
+    (x2 : 0 ≤ X + Spec.Text.lineDx dx n) (x3 : X + Spec.Text.lineDx dx n < W) (y2 : 0 ≤ Y + dy) (y3 : Y + dy < H) :
+    Spec.Text.bitAt ((W + 7) / 8) (bytesU8 (renderText (newCanvas W H, movedSt (atSize base h v cx cy) dx dy) s).1)
+        (X + Spec.Text.lineDx dx n) (Y + dy) =
+      Spec.Text.bitAt ((W + 7) / 8) (bytesU8 (renderText (newCanvas W H, atSize base h v cx cy) s).1) X Y := by
+  subst elh
+  have hA0 : (0 : Int) ≤ (atSize base h v cx cy).tsH := by show 0 ≤ h; omega
+  have hmapB : (lines s).map (strWidth (movedSt (atSize base h v cx cy) dx dy)) = (lines s).map (strWidth (atSize base h v cx cy)) :=
+    List.map_congr_left (fun l _ => strWidth_moved _ dx dy l)
+  rw [← hmapB] at ub
+  have hneA : NoEarlyL (geo0 W H) (atSize base h v cx cy) s :=
+    noEarlyL_of_boxesFit W H (atSize base h v cx cy) s hh hv k hkW hkH ua
+  have hneB : NoEarlyL (geo0 W H) (movedSt (atSize base h v cx cy) dx dy) s :=
+    noEarlyL_of_boxesFit W H (movedSt (atSize base h v cx cy) dx dy) s hh hv k hkW hkH ub
+  have hnl : (lines s)[n]? = some (lines s)[n] := List.getElem?_eq_getElem hn
+  obtain ⟨Xn, rfl⟩ := Int.eq_ofNat_of_zero_le x0
+  obtain ⟨Yn, rfl⟩ := Int.eq_ofNat_of_zero_le y0
+  obtain ⟨Xn', hXn'⟩ := Int.eq_ofNat_of_zero_le x2
+  obtain ⟨Yn', hYn'⟩ := Int.eq_ofNat_of_zero_le y2
+  rw [hXn', hYn']
+  rw [bitAt_render_eq W H (atSize base h v cx cy) s hwr hA0 Xn Yn (by omega),
+    bitAt_render_eq W H (movedSt (atSize base h v cx cy) dx dy) s hwr hA0 Xn' Yn' (by omega)]
+  have pA := px_line W H (atSize base h v cx cy) s hwr hbg hneA hv n _ hnl Xn Yn (by omega) (by omega) c1 c2
+  have pB := px_line W H (movedSt (atSize base h v cx cy) dx dy) s hwr hbg hneB hv n _ hnl Xn' Yn' (by omega) (by omega)
+    (by show cy + dy + n * ((base.fp.bbH : Int) * v) ≤ Yn'; omega)
+    (by show (Yn' : Int) < cy + dy + n * ((base.fp.bbH : Int) * v) + (base.fp.bbH : Int) * v; omega)
+  have sh := textR0_shift W H (lines s)[n] (lineSt (atSize base h v cx cy) n) (Spec.Text.lineDx dx n) dy Xn Yn Xn' Yn'
+    (by omega) (by omega) (by omega) (by omega) (by omega) (by omega)
+  have est := lineSt_shift (atSize base h v cx cy) dx dy n
+  rw [← est] at sh
+  have tc : (movedSt (atSize base h v cx cy) dx dy).tcol = (atSize base h v cx cy).tcol := rfl
+  by_cases hr : textR0 (geo0 W H) (lineSt (atSize base h v cx cy) n) (lines s)[n] Xn Yn
+  · rw [pA.1 hr, pB.1 (sh.2 hr), tc]
+  · rw [pA.2 hr, pB.2 (fun h' => hr (sh.1 h'))]
+
+/-- model side of the deviation clause, per line, any extra spacing: inside the band of line `n` (glyph row `J`, sub-row `q`)
+a stored bit `X < W` of the enlarged rendering shows the bit of the size-1 rendering `devSource` points to, and is blank
+where `devSource` knows no glyph cell -/
+theorem dev_lines_fact (W H : Nat) (base : TextSt) (hwr : base.wrap = false) (hbg : base.tbg = base.tcol)
+    (h v cx cy : Int) (s : List Nat) (hh : 1 ≤ h) (hv : 1 ≤ v)
+    (lh lh1 : Int) (elh : lh = (base.fp.bbH : Int) * v) (elh1 : lh1 = (base.fp.bbH : Int) * 1)
+    (k : Spec.Text.Case) (hkW : k.W = W) (hkH : k.H = H)
+    (ua : Spec.Text.boxesFit k cx cy h lh ((lines s).map (strWidth (atSize base h v cx cy))) = true)
+    (uc : Spec.Text.boxesFit k cx cy 1 lh1 ((lines s).map (strWidth (atSize base 1 1 cx cy))) = true)
+    (n : Nat) (X Y : Nat) (J q : Int) (hn : n < (lines s).length) (hXW : (X : Int) < W) (hYH : (Y : Int) < H)
+    (q0 : 0 ≤ q) (q1 : q < v) (j0 : 0 ≤ J) (j1 : J < lh1) (eY : (Y : Int) = cy + n * lh + v * J + q) :
+    Spec.Text.bitAt ((W + 7) / 8) (bytesU8 (renderText (newCanvas W H, atSize base h v cx cy) s).1) X Y =
+      devBit ((W + 7) / 8) (bytesU8 (renderText (newCanvas W H, atSize base 1 1 cx cy) s).1) (cy + n * lh1 + J)
+        (Spec.Text.devSource h base.spacing (glyphWs base (lines s)[n]) (Spec.Text.lineX cx n) (Spec.Text.lineX cx n) X) := by
+  subst elh elh1
+  have hA0 : (0 : Int) ≤ (atSize base h v cx cy).tsH := by show 0 ≤ h; omega
+  have hC0 : (0 : Int) ≤ (atSize base 1 1 cx cy).tsH := by show (0 : Int) ≤ 1; omega
+  have hneA : NoEarlyL (geo0 W H) (atSize base h v cx cy) s :=
+    noEarlyL_of_boxesFit W H (atSize base h v cx cy) s hh hv k hkW hkH ua
+  have hneC : NoEarlyL (geo0 W H) (atSize base 1 1 cx cy) s :=
+    noEarlyL_of_boxesFit W H (atSize base 1 1 cx cy) s (by show (1 : Int) ≤ 1; omega) (by show (1 : Int) ≤ 1; omega) k hkW hkH uc
+  have hnl : (lines s)[n]? = some (lines s)[n] := List.getElem?_eq_getElem hn
+  obtain ⟨⟨a1, a2, _, _⟩, _⟩ := boxesFit_elim _ _ _ _ _ _ ua
+  obtain ⟨_, cfit⟩ := boxesFit_elim _ _ _ _ _ _ uc
+  have hx0 := lineX_nonneg cx n a1
+  have hfitC : Spec.Text.lineX cx n + advSum (atSize base 1 1 cx cy) (lines s)[n] ≤ W := by
+    have g := (cfit n (by rw [List.length_map]; exact hn)).2
+    rw [getD_map_lines (strWidth (atSize base 1 1 cx cy)) (lines s) n _ hnl, strWidth_eq, hkW] at g
+    have e : (atSize base 1 1 cx cy).tsH = 1 := rfl
+    omega
+  obtain ⟨_, hbh⟩ := fp_pos base.font
+  have hbh1 : (1 : Int) ≤ (base.fp.bbH : Int) := by unfold TextSt.fp; omega
+  have hJ : J ≤ v * J := by
+    have : 0 ≤ (v - 1) * J := Int.mul_nonneg (by omega) j0
+    rw [Int.sub_mul, Int.one_mul] at this; omega
+  have hJ0 : 0 ≤ v * J := Int.mul_nonneg (by omega) j0
+  have hn1 : (n : Int) * ((base.fp.bbH : Int) * 1) ≤ (n : Int) * ((base.fp.bbH : Int) * v) :=
+    Int.mul_le_mul_of_nonneg_left (Int.mul_le_mul_of_nonneg_left (by omega) (by omega)) (by omega)
+  have hn2 : (0 : Int) ≤ (n : Int) * ((base.fp.bbH : Int) * 1) := Int.mul_nonneg (by omega) (by omega)
+  obtain ⟨Y1, hY1⟩ := Int.eq_ofNat_of_zero_le (a := cy + n * ((base.fp.bbH : Int) * 1) + J) (by omega)
+  have hY1H : Y1 < H := by omega
+  have hXW' : X < W := by omega
+  have hYH' : Y < H := by omega
+  rw [bitAt_render_eq W H (atSize base h v cx cy) s hwr hA0 X Y (by omega)]
+  have hband : v * J + q < (base.fp.bbH : Int) * v := by
+    have : v * (J + 1) ≤ v * (base.fp.bbH : Int) := Int.mul_le_mul_of_nonneg_left (by omega) (by omega)
+    rw [Int.mul_add, Int.mul_one] at this
+    have ec : (base.fp.bbH : Int) * v = v * (base.fp.bbH : Int) := Int.mul_comm _ _
+    omega
+  have pA := px_line W H (atSize base h v cx cy) s hwr hbg hneA hv n _ hnl X Y (by omega) hYH'
+    (by show cy + n * ((base.fp.bbH : Int) * v) ≤ Y; omega)
+    (by show (Y : Int) < cy + n * ((base.fp.bbH : Int) * v) + (base.fp.bbH : Int) * v; omega)
+  have dev := line_dev W H base h v cx cy (by omega) (by omega) n (lines s)[n] hx0 hfitC J q X Y Y1 hXW' hYH' hY1H q0 q1 j0
+    eY hY1.symm
+  cases hd : Spec.Text.devSource h (↑base.spacing) (glyphWs base (lines s)[n]) (Spec.Text.lineX cx n) (Spec.Text.lineX cx n) ↑X with
+  | none =>
+    rw [hd] at dev
+    simp only [devR] at dev
+    simp only [devBit]
+    exact pA.2 (fun hr => dev.1 hr)
+  | some xc =>
+    rw [hd] at dev
+    simp only [devR] at dev
+    simp only [devBit]
+    have hxc0 : Spec.Text.lineX cx n ≤ xc := devSource_ge h base.spacing (by omega) (by omega) (glyphWs base (lines s)[n])
+      (by intro w hw; unfold glyphWs at hw; simp only [List.mem_map] at hw; obtain ⟨c, _, rfl⟩ := hw; omega) _ _ _ _ hd
+    have hxcn : ((xc.toNat : Nat) : Int) = xc := Int.toNat_of_nonneg (by omega)
+    rw [← hxcn, hY1]
+    by_cases hxW : xc.toNat < W
+    · rw [bitAt_render_eq W H (atSize base 1 1 cx cy) s hwr hC0 xc.toNat Y1 (by omega)]
+      have pC := px_line W H (atSize base 1 1 cx cy) s hwr hbg hneC (by show (1 : Int) ≤ 1; omega) n _ hnl xc.toNat Y1 (by omega) hY1H
+        (by show cy + n * ((base.fp.bbH : Int) * 1) ≤ Y1; omega)
+        (by show (Y1 : Int) < cy + n * ((base.fp.bbH : Int) * 1) + (base.fp.bbH : Int) * 1; omega)
+      rw [lineSt_atSize] at pC
+      have tc : (atSize base h v cx cy).tcol = (atSize base 1 1 cx cy).tcol := rfl
+      by_cases hr : textR0 (geo0 W H) (atSize base 1 1 (Spec.Text.lineX cx n) (cy + n * ((base.fp.bbH : Int) * 1))) (lines s)[n] xc.toNat Y1
+      · rw [pC.1 hr, pA.1 (dev.2 hr), tc]
+      · rw [pC.2 hr, pA.2 (fun h' => hr (dev.1 h'))]
+    · have hC : Spec.Text.bitAt ((W + 7) / 8) (bytesU8 (renderText (newCanvas W H, atSize base 1 1 cx cy) s).1)
+          ((xc.toNat : Nat) : Int) ((Y1 : Nat) : Int) = false := by
+        apply bitAt_false_of
+        intro hb
+        have := ink_lt_W k ((W + 7) / 8) _ cx cy 1 _ _ (ink_lines W H (atSize base 1 1 cx cy) s hwr hC0) uc _ _ hb
+        rw [hkW] at this
+        omega
+      rw [hC]
+      exact pA.2 (fun hr => hxW (textR0_clip W H _ _ _ _ (dev.1 hr)))
+
+/-- **In the recorded class the model is never a plain `scale` violation — any string, any canvas width.**  For every text
+state (any extra spacing, wrapping off, background = text colour), **every** string (any number of line feeds), sizes
+`1 ≤ h`, `1 ≤ v < 2^24`, any cursor, offset and blank canvas of **any** width: with the case record the driver builds (one
+segment width per LF-separated line, the reported line heights, the glyph widths `GetCharWidth` reports for every line
+attached) `Spec.Text.check` answers `none` or — the documented deviation, excused — `scale.spacing` on the model's three
+renderings whenever the case lies in the class of the finding (`knownSpacingClass`: spacing `> 0`, `h > 1`, at least two
+glyphs on some line).  So on that class `box`, `box1`, `translate` and `scale` are all decided by the Spec against the
+code's documented rule, line by line: in every line the glyph cells at the advance `h·w + s` are the size-1 cells enlarged
+exactly `h × v` and nothing is lit between or after them (`Lemmas/MonoTextDevLines.line_dev`); the clauses beyond `box` /
+`box1` under the Spec's own gate `unclipped`. -/
+theorem spec_check_spacing_lines (W H : Nat) (base : TextSt)
+    (hwr : base.wrap = false) (hbg : base.tbg = base.tcol) (h v cx cy dx dy : Int) (s : List Nat)
+    (hh : 1 ≤ h) (hv : 1 ≤ v) (hv' : v < 16777216) (glyphs : Nat)
+    (hk : Spec.Text.knownSpacingClass (withCwsL
+      (linesCase W H cx cy dx dy h v (lineHeight (atSize base h v cx cy)) (lineHeight (atSize base 1 1 cx cy))
+        ((lines s).map (strWidth (atSize base h v cx cy))) ((lines s).map (strWidth (atSize base 1 1 cx cy))) base.spacing glyphs)
+      ((lines s).map (glyphWs base))) = true) :
+    Spec.Text.check (withCwsL
+      (linesCase W H cx cy dx dy h v (lineHeight (atSize base h v cx cy)) (lineHeight (atSize base 1 1 cx cy))
+        ((lines s).map (strWidth (atSize base h v cx cy))) ((lines s).map (strWidth (atSize base 1 1 cx cy))) base.spacing glyphs)
+      ((lines s).map (glyphWs base)))
+      (bytesU8 (renderText (newCanvas W H, atSize base h v cx cy) s).1)
+      (bytesU8 (renderText (newCanvas W H,
+        { atSize base h v cx cy with cx := (atSize base h v cx cy).cx + dx, cy := (atSize base h v cx cy).cy + dy }) s).1)
+      (bytesU8 (renderText (newCanvas W H, atSize base 1 1 cx cy) s).1) = none ∨
+    Spec.Text.check (withCwsL
+      (linesCase W H cx cy dx dy h v (lineHeight (atSize base h v cx cy)) (lineHeight (atSize base 1 1 cx cy))
+        ((lines s).map (strWidth (atSize base h v cx cy))) ((lines s).map (strWidth (atSize base 1 1 cx cy))) base.spacing glyphs)
+      ((lines s).map (glyphWs base)))
+      (bytesU8 (renderText (newCanvas W H, atSize base h v cx cy) s).1)
+      (bytesU8 (renderText (newCanvas W H,
+        { atSize base h v cx cy with cx := (atSize base h v cx cy).cx + dx, cy := (atSize base h v cx cy).cy + dy }) s).1)
+      (bytesU8 (renderText (newCanvas W H, atSize base 1 1 cx cy) s).1) = some "scale.spacing" := by
+  obtain ⟨hbw, hbh⟩ := fp_pos base.font
+  have hbh8 := (font_tables_sized.2.2.2 base.font).2.2.1
+  have elh : (lineHeight (atSize base h v cx cy) : Int) = (base.fp.bbH : Int) * v :=
+    lineHeight_eq (atSize base h v cx cy) (by show 0 ≤ v; omega) (by show v < 16777216; exact hv') (by unfold TextSt.fp atSize; simp only []; omega)
+  have elh1 : (lineHeight (atSize base 1 1 cx cy) : Int) = (base.fp.bbH : Int) * 1 :=
+    lineHeight_eq (atSize base 1 1 cx cy) (by show (0 : Int) ≤ 1; omega) (by show (1 : Int) < 16777216; omega) (by unfold TextSt.fp atSize; simp only []; omega)
+  have hbh1 : (1 : Int) ≤ (base.fp.bbH : Int) := by unfold TextSt.fp; omega
+  have hlpos : (0 : Int) < (base.fp.bbH : Int) * v := Int.mul_pos (by omega) (by omega)
+  have eB : ({ atSize base h v cx cy with cx := (atSize base h v cx cy).cx + dx, cy := (atSize base h v cx cy).cy + dy } : TextSt)
+      = movedSt (atSize base h v cx cy) dx dy := rfl
+  rw [eB]
+  have hmapB : (lines s).map (strWidth (movedSt (atSize base h v cx cy) dx dy)) = (lines s).map (strWidth (atSize base h v cx cy)) :=
+    List.map_congr_left (fun l _ => strWidth_moved _ dx dy l)
+  have hA0 : (0 : Int) ≤ (atSize base h v cx cy).tsH := by show 0 ≤ h; omega
+  have hC0 : (0 : Int) ≤ (atSize base 1 1 cx cy).tsH := by show (0 : Int) ≤ 1; omega
+  have hlen : ∀ n, n < ((lines s).map (strWidth (atSize base h v cx cy))).length → n < (lines s).length := by
+    intro n hn; rwa [List.length_map] at hn
+  have ecws : ∀ n (hn : n < (lines s).length), ((lines s).map (glyphWs base)).getD n [] = glyphWs base (lines s)[n] := by
+    intro n hn
+    rw [List.getD_eq_getElem?_getD, List.getElem?_map, List.getElem?_eq_getElem hn]; rfl
+  refine check_dev_lines_of_facts _ _ _ _ ?hW ?hl ?hl1 ?hlv ?fa ?fb ?fc ?ft ?hcell ?fd hk
+  case hW => show W ≤ (W + 7) / 8 * 8; omega
+  case hl => show (0 : Int) < (lineHeight (atSize base h v cx cy) : Int); rw [elh]; exact hlpos
+  case hl1 => show (0 : Int) < (lineHeight (atSize base 1 1 cx cy) : Int); rw [elh1]; omega
+  case hlv =>
+    show (lineHeight (atSize base h v cx cy) : Int) = v * (lineHeight (atSize base 1 1 cx cy) : Int)
+    rw [elh, elh1, Int.mul_one, Int.mul_comm]
+  case fa =>
+    have := ink_lines W H (atSize base h v cx cy) s hwr hA0
+    show InkInBoxes ((W + 7) / 8) _ cx cy h (lineHeight (atSize base h v cx cy) : Int) _
+    rw [elh]; exact this
+  case fb =>
+    have := ink_lines W H (movedSt (atSize base h v cx cy) dx dy) s hwr hA0
+    rw [hmapB] at this
+    show InkInBoxes ((W + 7) / 8) _ (cx + dx) (cy + dy) h (lineHeight (atSize base h v cx cy) : Int) _
+    rw [elh]; exact this
+  case fc =>
+    have := ink_lines W H (atSize base 1 1 cx cy) s hwr hC0
+    show InkInBoxes ((W + 7) / 8) _ cx cy 1 (lineHeight (atSize base 1 1 cx cy) : Int) _
+    rw [elh1]; exact this
+  case ft =>
+    intro hu n X Y hn x0 x1 y0 y1 c1 c2 x2 x3 y2 y3
+    obtain ⟨ua0, ub0, _, _, _⟩ := unclipped_elim_lines _ hu
+    exact translate_lines_fact W H base hwr hbg h v cx cy dx dy s hh hv _ elh _ rfl rfl ua0 ub0 n X Y (hlen n hn)
+      x0 x1 y0 y1 c1 c2 x2 x3 y2 y3
+  case hcell =>
+    intro n X xc hn hd
+    have hn' := hlen n hn
+    have hnl : (lines s)[n]? = some (lines s)[n] := List.getElem?_eq_getElem hn'
+    have hd' : Spec.Text.devSource h base.spacing (((lines s).map (glyphWs base)).getD n []) (Spec.Text.lineX cx n)
+        (Spec.Text.lineX cx n) X = some xc := hd
+    rw [ecws n hn'] at hd'
+    show X < Spec.Text.lineX cx n + ((lines s).map (strWidth (atSize base h v cx cy))).getD n 0 + h
+    rw [getD_map_lines _ _ n _ hnl, strWidth_eq]
+    have key := devSource_lt_adv (atSize base h v cx cy) hA0 (lines s)[n] _ _ X xc hd'
+    have e : (atSize base h v cx cy).tsH = h := rfl
+    omega
+  case fd =>
+    intro hu n X Y J q hn hXW hYH q0 q1 j0 j1 eY
+    obtain ⟨ua0, _, uc0, _, _⟩ := unclipped_elim_lines _ hu
+    have hn' := hlen n hn
+    show Spec.Text.bitAt ((W + 7) / 8) _ X Y = devBit ((W + 7) / 8) _ (cy + n * (lineHeight (atSize base 1 1 cx cy) : Int) + J)
+      (Spec.Text.devSource h base.spacing (((lines s).map (glyphWs base)).getD n []) (Spec.Text.lineX cx n) (Spec.Text.lineX cx n) X)
+    rw [ecws n hn']
+    exact dev_lines_fact W H base hwr hbg h v cx cy s hh hv _ _ elh elh1 _ rfl rfl ua0 uc0 n X Y J q hn' hXW hYH q0 q1 j0 j1 eY
+
+/-- **`spec_check_spacing`: the one-line instance** (kept under its name, with its historical hypotheses `W % 8 = 0` and
+`10 ∉ s`, of which only the second is used — to write the case record with one segment): for every text state with any
+extra spacing, in the class of the finding `Spec.Text.check` (with the reported glyph widths attached) answers `none` or
+`scale.spacing` on the model's renderings, never `scale`. -/
+theorem spec_check_spacing (W H : Nat) (_hW8 : W % 8 = 0) (base : TextSt)
+    (hwr : base.wrap = false) (hbg : base.tbg = base.tcol) (h v cx cy dx dy : Int) (s : List Nat)
+    (hs : 10 ∉ s) (hh : 1 ≤ h) (hv : 1 ≤ v) (hv' : v < 16777216) (glyphs : Nat)
+    (hk : Spec.Text.knownSpacingClass (withCws
+      (oneLineCase W H cx cy dx dy h v (lineHeight (atSize base h v cx cy)) (lineHeight (atSize base 1 1 cx cy))
+        (strWidth (atSize base h v cx cy) s) (strWidth (atSize base 1 1 cx cy) s) base.spacing glyphs) (glyphWs base s)) = true) :
+    Spec.Text.check (withCws
+      (oneLineCase W H cx cy dx dy h v (lineHeight (atSize base h v cx cy)) (lineHeight (atSize base 1 1 cx cy))
+        (strWidth (atSize base h v cx cy) s) (strWidth (atSize base 1 1 cx cy) s) base.spacing glyphs) (glyphWs base s))
+      (bytesU8 (renderText (newCanvas W H, atSize base h v cx cy) s).1)
+      (bytesU8 (renderText (newCanvas W H,
+        { atSize base h v cx cy with cx := (atSize base h v cx cy).cx + dx, cy := (atSize base h v cx cy).cy + dy }) s).1)
+      (bytesU8 (renderText (newCanvas W H, atSize base 1 1 cx cy) s).1) = none ∨
+    Spec.Text.check (withCws
+      (oneLineCase W H cx cy dx dy h v (lineHeight (atSize base h v cx cy)) (lineHeight (atSize base 1 1 cx cy))
+        (strWidth (atSize base h v cx cy) s) (strWidth (atSize base 1 1 cx cy) s) base.spacing glyphs) (glyphWs base s))
+      (bytesU8 (renderText (newCanvas W H, atSize base h v cx cy) s).1)
+      (bytesU8 (renderText (newCanvas W H,
+        { atSize base h v cx cy with cx := (atSize base h v cx cy).cx + dx, cy := (atSize base h v cx cy).cy + dy }) s).1)
+      (bytesU8 (renderText (newCanvas W H, atSize base 1 1 cx cy) s).1) = some "scale.spacing" := by
+  have key := spec_check_spacing_lines W H base hwr hbg h v cx cy dx dy s hh hv hv' glyphs
+  rw [lines_no_lf s hs] at key
+  exact key hk
+
+/-- non-vacuity of `spec_check_spacing_lines`: "ab⏎⏎cd" (three lines, the middle one empty) in font 0 with extra spacing 1 at
+size 2×1, cursor (3,1), on a 29×26 canvas (29 is not a multiple of 8: row stride 4 bytes, 3 padding bits per row) lies in the
+class and is unclipped (the first line ends exactly at the right edge) … -/
+def devStL : TextSt := { spacing := 1, wrap := false, tcol := true, tbg := true }
+def devCaseL : Spec.Text.Case :=
+  withCwsL (linesCase 29 26 3 1 0 0 2 1 (lineHeight (atSize devStL 2 1 3 1)) (lineHeight (atSize devStL 1 1 3 1))
+    ((lines [97, 98, 10, 10, 99, 100]).map (strWidth (atSize devStL 2 1 3 1)))
+    ((lines [97, 98, 10, 10, 99, 100]).map (strWidth (atSize devStL 1 1 3 1))) devStL.spacing 2)
+    ((lines [97, 98, 10, 10, 99, 100]).map (glyphWs devStL))
+
+example : Spec.Text.knownSpacingClass devCaseL = true ∧ Spec.Text.unclipped devCaseL = true ∧
+    devCaseL.cws = [[6, 6], [], [6, 6]] := by decide +kernel
+
+/-- … and the Spec's verdict on the model's renderings is the excused `scale.spacing` (the plain `scale` clause is false in
+both outer lines) -/
+example : Spec.Text.check devCaseL (bytesU8 (renderText (newCanvas 29 26, atSize devStL 2 1 3 1) [97, 98, 10, 10, 99, 100]).1)
+    (bytesU8 (renderText (newCanvas 29 26, atSize devStL 2 1 3 1) [97, 98, 10, 10, 99, 100]).1)
+    (bytesU8 (renderText (newCanvas 29 26, atSize devStL 1 1 3 1) [97, 98, 10, 10, 99, 100]).1) = some "scale.spacing" := by
+  decide +kernel
+
+/-- **The final case of a session, any extra spacing, any string, any canvas width**: whatever text state `t` a call history
+on one image object leaves (`Mono.TextCall`: setters in any order, queries, earlier texts, re-creations, direct `DrawChar`s),
+if its sizes are `≥ 1` and the final case lies in the class of the recorded finding, `Spec.Text.check` answers `none` or
+`scale.spacing` on the three renderings of the final case (`Mono.sessA`, `Mono.sessC`), never `scale`, `box` or `translate`. -/
+theorem sess_final_spacing_lines (W0 H0 : Nat) (calls : List TextCall) (W H : Nat) (cx cy dx dy : Int)
+    (s : List Nat) (glyphs : Nat) (t : TextSt) (ht : t = (runCalls (newCanvas W0 H0, {}) calls).2)
+    (hh : 1 ≤ t.tsH) (hv : 1 ≤ t.tsV) (hv' : t.tsV < 16777216)
+    (hk : Spec.Text.knownSpacingClass (withCwsL
+      (linesCase W H cx cy dx dy t.tsH t.tsV (lineHeight (sessA t cx cy)) (lineHeight (sessC t cx cy))
+        ((lines s).map (strWidth (sessA t cx cy))) ((lines s).map (strWidth (sessC t cx cy))) t.spacing glyphs)
+      ((lines s).map (glyphWs t))) = true) :
+    Spec.Text.check (withCwsL
+      (linesCase W H cx cy dx dy t.tsH t.tsV (lineHeight (sessA t cx cy)) (lineHeight (sessC t cx cy))
+        ((lines s).map (strWidth (sessA t cx cy))) ((lines s).map (strWidth (sessC t cx cy))) t.spacing glyphs)
+      ((lines s).map (glyphWs t)))
+      (bytesU8 (renderText (newCanvas W H, sessA t cx cy) s).1)
+      (bytesU8 (renderText (newCanvas W H, sessA t (cx + dx) (cy + dy)) s).1)
+      (bytesU8 (renderText (newCanvas W H, sessC t cx cy) s).1) = none ∨
+    Spec.Text.check (withCwsL
+      (linesCase W H cx cy dx dy t.tsH t.tsV (lineHeight (sessA t cx cy)) (lineHeight (sessC t cx cy))
+        ((lines s).map (strWidth (sessA t cx cy))) ((lines s).map (strWidth (sessC t cx cy))) t.spacing glyphs)
+      ((lines s).map (glyphWs t)))
+      (bytesU8 (renderText (newCanvas W H, sessA t cx cy) s).1)
+      (bytesU8 (renderText (newCanvas W H, sessA t (cx + dx) (cy + dy)) s).1)
+      (bytesU8 (renderText (newCanvas W H, sessC t cx cy) s).1) = some "scale.spacing" := by
+  have hbg : t.tbg = t.tcol := by rw [ht]; exact runCalls_bg calls (newCanvas W0 H0, {}) rfl
+  have eA : sessA t cx cy = atSize { t with wrap := false } t.tsH t.tsV cx cy := rfl
+  have eB : sessA t (cx + dx) (cy + dy) =
+      { atSize { t with wrap := false } t.tsH t.tsV cx cy with
+        cx := (atSize { t with wrap := false } t.tsH t.tsV cx cy).cx + dx,
+        cy := (atSize { t with wrap := false } t.tsH t.tsV cx cy).cy + dy } := rfl
+  have eC : sessC t cx cy = atSize { t with wrap := false } 1 1 cx cy := by
+    unfold sessC setTextSize setCursor atSize
+    simp
+  rw [eA, eC] at hk
+  rw [eA, eB, eC]
+  exact spec_check_spacing_lines W H { t with wrap := false } rfl hbg t.tsH t.tsV cx cy dx dy s hh hv hv' glyphs hk
+
+/-- non-vacuity of `sess_final_spacing_lines`: a history that leaves extra spacing 2 and size 3×2 (spacing set before the
+size, font set last) -/
+example : (runCalls (newCanvas 8 8, {}) [.spacing 2, .size 3 2, .color true, .font 0 true]).2.spacing = 2 ∧
+    (runCalls (newCanvas 8 8, {}) [.spacing 2, .size 3 2, .color true, .font 0 true]).2.tsH = 3 := by decide
 
 end RawPanelVerif.C20
